@@ -237,6 +237,26 @@ def call_by_contract(I, node, qual, args, kwargs, st, ctor=None):
         yield st, env
         return
     scope = getattr(c, 'scope', None)
+    # append-only sinks (options['append_only'] = ['errh.log']): the callee's contract is stated for an EMPTY sink; the callee only
+    # appends to it and never reads it (frame fact of the sink model, checked syntactically by frames rule sink-read), so at a call
+    # site the contract is applied to an empty sink and what it appended is concatenated to what the caller's sink already held
+    rel = []
+    for path in (c.options or {}).get('append_only', ()):
+        pname, fld = path.split('.')
+        r0 = env.get(pname)
+        if not isinstance(r0, Ref) or fld not in st.heap[r0.addr].fields:
+            raise EngineLimit('append_only %s: no such sink at the call site' % path)
+        cur = st.heap[r0.addr].fields[fld]
+        co = st.heap[cur.addr]
+        if isinstance(co, HList):
+            ety = c.options.get('append_only_type')
+            old_e = I.list_to_seq(st, co, ety)
+        elif isinstance(co, HSeq):
+            ety, old_e = co.ety, co.e
+        else:
+            raise EngineLimit('append_only %s: sink is not a list' % path)
+        rel.append((r0.addr, fld, old_e, ety))
+        st.mut(r0.addr).fields[fld] = I.alloc(st, HList([]))
     # 1. preconditions are obligations of the caller
     for r in c.requires:
         prove_expr(I, r, env, st, scope, 'pre', node=node,
@@ -250,6 +270,8 @@ def call_by_contract(I, node, qual, args, kwargs, st, ctor=None):
         if cond is not True:
             assume_expr(I, cond, env, st_e, scope)
         if I.feasible(st_e.pc):
+            for (addr, fld, old_e, ety) in rel:
+                st_e.mut(addr).fields[fld] = I.alloc(st_e, HSeq(z3.Concat(old_e, I.fresh('appended', z3.SeqSort(zsort(ety)))), ety))
             havoc_modifies(I, c, env, st_e)
             for e in c.exc_ensures.get(exc_name, ()):
                 b = dict(env)
@@ -288,14 +310,24 @@ def call_by_contract(I, node, qual, args, kwargs, st, ctor=None):
             if I.feasible(st1.pc):
                 yield st1, self_ref
         return
+    call_ens = c.options.get('call_ensures') if c.options else None
     for st1, res in fresh_value(I, st, rt, 'ret_' + qual.rsplit('.', 1)[-1]):
         b = dict(env)
         b['result'] = res
+        deltas = []
+        for (addr, fld, old_e, ety) in rel:
+            d = I.fresh('appended', z3.SeqSort(zsort(ety)))
+            deltas.append(d)
+            st1.mut(addr).fields[fld] = I.alloc(st1, HSeq(d, ety))
         st1.ghost = dict(st1.ghost)
         st1.ghost['__old__'] = old_st
-        for e in c.ensures:
+        for k, e in enumerate(c.ensures):
+            if call_ens is not None and k not in call_ens:
+                continue        # a clause that is not proved of the callee (listed known finding) is never assumed of it
             assume_expr(I, e, b, st1, scope)
         st1.ghost.pop('__old__', None)
+        for (addr, fld, old_e, ety), d in zip(rel, deltas):
+            st1.mut(addr).fields[fld] = I.alloc(st1, HSeq(z3.Concat(old_e, d), ety))
         if I.feasible(st1.pc):
             yield st1, res
 
@@ -743,6 +775,11 @@ def ext_errh_ele_error(I, node, selfref, args, kwargs, st):
     log = o.fields['log']
     lo = st.heap[log.addr]
     entry = STuple([code, val])
+    if isinstance(lo, HList):
+        ety = Tup(Str, Opt(Str))
+        st.heap[log.addr] = HSeq(z3.Concat(I.list_to_seq(st, lo, ety), z3.Unit(to_z(entry, ety))), ety)
+        yield st, NONE
+        return
     lo2 = st.mut(log.addr)
     lo2.e = z3.Concat(lo.e, z3.Unit(to_z(entry, lo.ety)))
     yield st, NONE
